@@ -4,6 +4,7 @@ import (
 	"flag"
 	"fmt"
 	"os"
+	"path/filepath"
 	"sort"
 	"strconv"
 	"strings"
@@ -46,6 +47,8 @@ func main() {
 	verif := flag.String("verif", "/verif", "verif directory (evidence, replay, known findings)")
 	dump := flag.String("dump", "", "dump path summaries of functions whose name contains this string")
 	noFix := flag.Bool("nofixtures", false, "skip fixture self-checks")
+	overlayArg := flag.String("overlay", "", "relpath=file: analyse the tree with this file's content in place of relpath (in memory)")
+	patchFile := flag.String("patch", "", "analyse the tree as if this unified diff (paths relative to the tree root, -p1) were applied (in memory, via an overlay; the tree itself is not touched)")
 	flag.Parse()
 	start := time.Now()
 	if t := os.Getenv("VERIF_TIER"); t != "" && *tier == "" {
@@ -100,8 +103,30 @@ func main() {
 		fmt.Println("cannot read known_findings.json:", err)
 		os.Exit(2)
 	}
-	P, err := Load(LoadOpts{Dir: *repo, Tags: "verif", MinPkgs: 10})
+	var overlay map[string][]byte
+	if *overlayArg != "" {
+		parts := strings.SplitN(*overlayArg, "=", 2)
+		if len(parts) == 2 {
+			if b, rerr := os.ReadFile(parts[1]); rerr == nil {
+				abs, _ := filepath.Abs(filepath.Join(*repo, parts[0]))
+				overlay = map[string][]byte{abs: b}
+			}
+		}
+	}
+	if *patchFile != "" {
+		var perr error
+		overlay, perr = patchOverlay(*repo, *patchFile)
+		if perr != nil {
+			fmt.Println("PATCH-STALE:", perr)
+			os.Exit(3)
+		}
+	}
+	P, err := Load(LoadOpts{Dir: *repo, Tags: "verif", MinPkgs: 10, Overlay: overlay})
 	c := &Ctx{R: R, Tier: *tier, Verif: *verif, Repo: *repo}
+	if err != nil && overlay != nil {
+		fmt.Println("OVERLAY-INVALID:", err)
+		os.Exit(4)
+	}
 	if err != nil {
 		R.Unproven("load", "(tree)", "typecheck", "", "the tree does not load or type-check: "+err.Error())
 	} else {
@@ -127,6 +152,9 @@ func main() {
 			}
 			if *tier == "thorough" {
 				runThorough(c, spec)
+				if !*noFix {
+					runSweep(c, spec, int64(seed))
+				}
 			}
 		}()
 	}
